@@ -130,8 +130,10 @@ LEVEL_TEXT = ("Kernel-checked theorems over a one-for-one model of the oracle ti
               "syncer gives progress in the same tick; for the repaired tick, progress under lag (the syncer reaches the sampled "
               "block => the root is on L2 at that very tick and the oracle samples again); for the tick as written at the pinned "
               "commit the remembered block is provably always 0 and the lag schedules starve (no injection for any number of ticks) "
-              "- the machine-checked form of finding F3. The model is tied to the Go code by running the real AggOracle tick against "
-              "the real l1infotreesync store, a scripted L1 client and a recording sender on hundreds of schedules per run.")
+              "- the machine-checked form of finding F3. The two run-level safety theorems are also proved for runs in which the L1 history is "
+              "REORGANISED between ticks in any way (run_r: an injected root is the most recent one, at or below the last sampled block, of the "
+              "history canonical at the tick of the injection; no root twice). The model is tied to the Go code by running the real AggOracle tick against "
+              "the real l1infotreesync store (its real Reorg included), a scripted L1 client and a recording sender on hundreds of schedules per run.")
 LEVEL_NOTE = ("Trusted: Coq kernel + vm_compute, the hand transcription of oracle.go / GetLatestInfoUntilBlock (validated per tick by "
               "the correspondence), the scripted L1 client / fault wrapper / recording sender of harness/c15, SQLite below the real "
               "store. Not modelled: ticker timing, goroutines, the EVM sender's transaction management (chaingersender).")
